@@ -460,6 +460,8 @@ var c09pNearMisses = []string{
 	"pipeline P(in int a, out int r,) { call A(x = A.o,) call B(x = 1,) call A(y = 2,) return (r = B.o,) }",
 	"pipeline P(in int a, out int r,) { call A(x = B.o,) call B(x = A.o,) call A(y = 2,) return (r = B.o,) }",
 	"pipeline P(in int a, out int r,) { call A(x = B.o,) call B(x = 1,) call A(y = B.o,) return (r = B.o,) }",
+	"pipeline P(in int a, out int r,) { call X(a = B.o,) call Y as X() call C(c = X.o,) call B() return (r = C.o,) }",
+	"pipeline P(in int a, out int r,) { call X(a = C.o,) call Y as X() call C(c = X.o,) return (r = C.o,) }",
 	"pipeline P(in int a, out int r,) { call B(x = Z.o,) call A(x = self.b,) return (r = B.o,) }",
 	"pipeline P(in int a, out int r,) { call B(x = self.A,) call A(x = 1,) return (r = B.o,) }",
 	"pipeline P(in int a, out int r,) { call B(x = \"A.o\",) call A(x = 1,) return (r = B.o,) }",
@@ -637,7 +639,13 @@ func c09Pipe(c *Ctx) {
 		out2, err2, pan2 := c09Format([]byte(out), "pipe.mro")
 		if pan2 != "" || err2 != nil || out2 != out {
 			in := map[string]interface{}{"source": t.text, "formatted": out, "formatted_twice": c09c2Impl(out2, err2, pan2)}
-			property("C09:pipeline-not-idempotent", "format(format(x)) differs from format(x) for a pipeline declaration", in, c09c2Impl(out2, err2, pan2))
+			key, what := "C09:pipeline-not-idempotent", "format(format(x)) differs from format(x) for a pipeline declaration"
+			if !distinct {
+				// callMap[id] is the LAST call with that id: the first sort can change which one that is
+				key += ":duplicate-call-ids"
+				what += " in which two calls have the same id"
+			}
+			property(key, what, in, c09c2Impl(out2, err2, pan2))
 		}
 		ast0, _, _ := c09Parse([]byte(t.text), "pipe.mro")
 		ast1, e1, p1 := c09Parse([]byte(out), "pipe.mro")
